@@ -2,7 +2,7 @@ CONFIG = {
     "id": "C17",
     "coq_targets": ["Model/DispatchInterp.v", "Gen/DispatchTable.v", "Proofs/DispatchTableProofs.v", "Gen/FormulasInfo.v", "Gen/FormulasAttr.v", "Gen/FormulasHeal.v", "Proofs/FormulasInfoProofs.v", "Proofs/FormulasAttrCoreProofs.v", "Proofs/FormulasHealProofs.v",
                     "Model/HandlersInterp.v", "Gen/HandlersTable.v", "Proofs/HandlersTableProofs.v",
-                    "Props/C17.v", "Model/HealCheck.v", "Model/HealTerms.v", "Model/SimCheck.v", "Model/DispatchCheck.v", "Proofs/DispatchProofs.v", "Model/EventsCheck.v"],
+                    "Props/C17.v", "Model/HealCheck.v", "Model/HealTerms.v", "Model/SimCheck.v", "Model/DispatchCheck.v", "Proofs/DispatchProofs.v", "Model/EventsCheck.v", "Model/AttrCheck.v"],
     "prop_files": ["Props/C17.v"],
     "gen": ["FormulasInfo", "FormulasAttr", "FormulasHeal", "DispatchTable", "HandlersTable"],
     "components": [{
@@ -39,6 +39,14 @@ CONFIG = {
         "check": "check_case", "monitor": "monitor_case", "model_out": "model_trace",
         "case_type": "case", "ops_path": [1],
         "n_quick": 900, "n_thorough": 10000, "shard": 300,
+    }, {
+        # the attribute service the heal goes through (attribute/modify.go, event.go are anchors of C17): HP updates,
+        # the life state while HPChange / LimboWaitHeal are delivered, re-entrant listeners (Model/Attr.v, shared with
+        # C07: tools/props.d/C07.py describes the component)
+        "name": "attr", "modules": ["Model.Attr", "Model.AttrCheck"],
+        "check": "check_case", "monitor": "monitor_case", "model_out": "model_out",
+        "case_type": "case", "ops_path": [1],
+        "n_quick": 600, "n_thorough": 8000, "shard": 100,
     }],
     "rule": "2-4 units (id pool 1..4 plus one unregistered id) with generated HP/ATK/DEF base/percent/flat/convert, "
             "outgoing/incoming heal bonuses and HP ratio (full, partial, zero, above 1), a set of units whose limbo wait is "
